@@ -110,31 +110,62 @@ def dedupe(rw):
     return out
 
 
+def in_scalar_subquery(path):
+    """the token sits in a bracketed query that is (part of) a select item"""
+    try:
+        i = path.index("select_clause_element")
+    except ValueError:
+        return False
+    rest = path[i + 1:]
+    return "bracketed" in rest and any(t in rest[rest.index("bracketed"):] for t in ("select_statement", "set_expression"))
+
+
+def finding_territory(cl, s):
+    """a single rewrite that sits where one of the structural finding classes lives (gap at a dot: D30/D31/D32; inside one of
+    several identical query texts: D33; function-call gap in a scalar subquery of a select item: D34).  Such rewrites are
+    exercised one at a time; the larger rewrite sets are drawn from the others, so that a set is not voided — and its
+    minimisation not made expensive — by a member whose effect is already known."""
+    if s[0] == "semi":
+        return False
+    i = s[1]
+    if s[0] == "gap":
+        if "." in (cl.toks[i - 1][1], cl.toks[i][1]):
+            return True
+        pa = cl.parents[i - 1]
+        if pa and pa[-1] == "function_name" and cl.toks[i][1] == "(" and in_scalar_subquery(cl.parents[i]):
+            return True
+    for grp in cl.dup_groups:
+        for (a, b) in grp:
+            if (a < i < b) if s[0] == "gap" else (a <= i < b):
+                return True
+    return False
+
+
 def sample_variants(rng, cl, singles, n):
     """n seeded rewrite sets: single rewrites, small sets, dense sets, uniform sweeps"""
     out = []
     if not singles:
         return out
-    gaps = [s for s in singles if s[0] == "gap"]
-    # gaps inside dotted names are mostly rejected (or re-read by the parser, D32): keep them for the single rewrites, make
-    # them rare inside larger sets so that one such gap does not void the whole variant
-    dotted = {s[1] for s in gaps if cl.gaps[s[1]] == "" and "." in (cl.toks[s[1] - 1][1], cl.toks[s[1]][1])}
-    cases = [s for s in singles if s[0] == "case"]
-    quotes = [s for s in singles if s[0] == "quote"]
-    semis = [s for s in singles if s[0] == "semi"]
+    all_singles = singles
+    clean = [s for s in singles if not finding_territory(cl, s)]
+    gaps = [s for s in all_singles if s[0] == "gap"]
+    cases = [s for s in all_singles if s[0] == "case"]
+    quotes = [s for s in all_singles if s[0] == "quote"]
+    semis = [s for s in all_singles if s[0] == "semi"]
+    cgaps = [s for s in clean if s[0] == "gap"]
+    ccases = [s for s in clean if s[0] == "case"]
+    cquotes = [s for s in clean if s[0] == "quote"]
     for i in range(n):
         r = rng.random()
-        if r < 0.30:
-            # one rewrite, the kind chosen first so that rare kinds are not drowned by the many gap rewrites
+        if r < 0.30 or not clean:
+            # one rewrite (any position), the kind chosen first so that rare kinds are not drowned by the many gap rewrites
             pools = [p for p in (gaps, gaps, cases, quotes, semis) if p]
             out.append([rng.choice(rng.choice(pools))])
         elif r < 0.55:
-            pick = [rng.choice(singles) for _ in range(rng.randrange(2, 6))]
-            out.append(dedupe([s for s in pick if not (s[0] == "gap" and s[1] in dotted and rng.random() < 0.8)]))
+            out.append(dedupe([rng.choice(clean) for _ in range(rng.randrange(2, 6))]))
         elif r < 0.85:
             p = rng.choice([0.2, 0.5, 0.9])
-            rw = [s for s in singles if s[0] != "semi" and rng.random() < p / (5 if s[0] == "gap" else 3 if s[0] == "case" else 2)
-                  and not (s[0] == "gap" and s[1] in dotted and rng.random() < 0.97)]
+            rw = [s for s in clean if s[0] != "semi" and rng.random() < p / (5 if s[0] == "gap" else 3 if s[0] == "case" else 2)]
             if semis and rng.random() < 0.5:
                 rw.append(rng.choice(semis))
             out.append(dedupe(rw))
@@ -144,13 +175,13 @@ def sample_variants(rng, cl, singles, n):
             which = rng.choice(["gaps", "kw", "ident", "quotes", "all"])
             rw = []
             if which in ("gaps", "all"):
-                rw += [s for s in gaps if s[2] == f and (cl.gaps[s[1]] != "" or rng.random() < 0.3) and s[1] not in dotted]
+                rw += [s for s in cgaps if s[2] == f and (cl.gaps[s[1]] != "" or rng.random() < 0.3)]
             if which in ("kw", "all"):
-                rw += [s for s in cases if s[2] == m and cl.cls[s[1]] == "kw"]
+                rw += [s for s in ccases if s[2] == m and cl.cls[s[1]] == "kw"]
             if which in ("ident", "all"):
-                rw += [s for s in cases if s[2] == m and cl.cls[s[1]] == "ident"]
+                rw += [s for s in ccases if s[2] == m and cl.cls[s[1]] == "ident"]
             if which == "quotes":
-                rw += [s for s in quotes if s[2] == 0]
+                rw += [s for s in cquotes if s[2] == 0]
             if which == "all" and semis:
                 rw.append(rng.choice(semis))
             out.append(dedupe(rw))
@@ -192,7 +223,20 @@ def pair_fails(sql, dialect, rewrites, strict, prepared=None):
 
 
 def work(job):
-    """one (statement, dialect): evaluate the original once, then its variants"""
+    """one (statement, dialect): evaluate the original once, then its variants (never raises: a harness-side problem with one input
+    is reported as a status and counted, it is not a verdict about the implementation)"""
+    try:
+        return _work(job)
+    except BaseException as e:  # noqa
+        if isinstance(e, (KeyboardInterrupt, SystemExit)):
+            raise
+        import traceback
+        return {"status": "worker-error", "error": "".join(traceback.format_exception_only(type(e), e))[-300:], "variants": 0,
+                "rejected": 0, "by_kind": {}, "rej_by_kind": {}, "failures": [], "n_fail": 0, "nontrivial": False,
+                "base_tables": None, "ntok": 0, "singles": 0, "singles_run": 0, "classes": {}}
+
+
+def _work(job):
     sql, d = job["sql"], job["dialect"]
     strict = job.get("strict", False)
     out = {"status": "ok", "variants": 0, "rejected": 0, "by_kind": {}, "rej_by_kind": {}, "failures": [], "n_fail": 0,
@@ -219,6 +263,7 @@ def work(job):
     seen = set()
     out["classes"] = {}
     kept = set()
+    n_min = 0
     for rw in variants:
         text = cl.apply(rw)
         if text == sql or text in seen:
@@ -238,6 +283,12 @@ def work(job):
             # minimise the rewrite set and name its class here, in the worker (the original is already prepared)
             small = rw
             if len(rw) > 1:
+                if n_min >= 3:
+                    # rewrite sets are drawn outside the structural finding classes, so a failing set is news already; the first
+                    # three per (statement, dialect) are minimised and classified, the rest only counted
+                    out["classes"]["(not minimised)"] = out["classes"].get("(not minimised)", 0) + 1
+                    continue
+                n_min += 1
                 small = R.ddmin(rw, lambda x: pair_fails(sql, d, x, strict, prepared) is not None)
             ctxs = [cl.context(r) for r in small]
             cname = failure_class(sql, d, strict, prepared, small, ctxs)
@@ -270,13 +321,6 @@ def failure_class(sql, dialect, strict, prepared, small, ctxs):
     if mirrored != [list(r) for r in small] and pair_fails(sql, dialect, mirrored, strict, prepared) is None:
         # the same rewrite applied to every occurrence of the repeated query text keeps the result
         return "rewrite-inside-one-of-several-identical-query-texts"
-    def in_scalar_subquery(path):
-        try:
-            i = path.index("select_clause_element")
-        except ValueError:
-            return False
-        rest = path[i + 1:]
-        return "bracketed" in rest and any(t in rest[rest.index("bracketed"):] for t in ("select_statement", "set_expression"))
     if gaps_only and all(c["before_parent"] == "function_name" and c["after"] == "(" for c in ctxs) and \
             all(in_scalar_subquery(cl.parents[r[1]]) for r in small):
         return "function-call-gap-inside-scalar-subquery-of-select-item"
@@ -409,7 +453,7 @@ def build_jobs(chk, inputs):
                 primary = di == (ii % len(ds))
                 jobs.append({"input": ii, "sql": inp["sql"], "dialect": d, "strict": inp["strict"], "seed": rng.randrange(2 ** 31),
                              "mode": "single" if primary or len(ds) == 1 else "sample",
-                             "cap": 30 if big else 300, "n": (6 if big else 20) if primary or len(ds) == 1 else 6})
+                             "cap": 30 if big else 300, "n": (5 if big else 20) if primary or len(ds) == 1 else 6})
         else:
             per = max(2, -(-30 // len(ds)))
             for d in ds:
@@ -667,6 +711,7 @@ def run(chk):
     singles_total = singles_run = 0
     fails = []
     class_counts = collections.Counter()
+    worker_errors = 0
     for job, r in zip(jobs, results):
         inp = inputs[job["input"]]
         d = job["dialect"]
@@ -674,6 +719,9 @@ def run(chk):
         if r["status"] == "orig-rejected":
             st.reject[d] += 1
             continue
+        if r["status"] == "worker-error":
+            log(f"[c07] harness-side error on {inp['name']} ({d}): {r.get('error')}")
+            worker_errors += 1
         if r["status"] != "ok":
             continue
         st.accept[d] += 1
@@ -721,6 +769,8 @@ def run(chk):
             break
     # (the model's single answer: a variant cannot differ from the original without the differential noticing, so the model is
     # compared on the original rendering only, above)
+    if worker_errors > max(3, len(jobs) // 50):
+        raise Infra(f"{worker_errors} of {len(jobs)} jobs failed inside the harness")
     seg = direct_segments(chk, drv, inputs)
     if seg["table_names_as_before_repair_D30"]:
         # `SqlFluffTable.of` still counts positions over the raw child list on this tree
